@@ -6,6 +6,95 @@ VERIF = os.path.dirname(os.path.dirname(os.path.abspath(__file__)))
 
 # property id -> (technique, level text, level note, design ref)
 CHECKS = {
+    "C01-pending": ("AddressSanitizer with red zones inside the Scheme heap (allocator hook) + UBSan subset; C-API item evaluator with a same-context probe",
+            "Runtime monitoring on the sanitized build: every name exported by the R7RS-small libraries and every VM primitive is "
+            "applied to 0..7 arguments from a pool of 62 hostile values, plus boundary index tuples for ~60 indexed operations, "
+            "reader inputs (valid, grammar-aware mutations, raw bytes; read/load/eval) and malformed core/derived forms. Each item "
+            "is evaluated through the embedding API with no Scheme handler: it must end in a value or an error object; any "
+            "sanitizer report, signal or heap-checker report is a violation; after every error a fixed probe program must print "
+            "in the same context what it prints in a fresh one.",
+            "Red zones see overruns of up to 32 bytes past an object and uses of swept memory, not intra-object overflow or jumps "
+            "over the pad. Inputs are sampled (all single arguments, sampled tuples). Heap limit 256 MB: out-of-memory errors are "
+            "accepted outcomes; watchdog expiry is inconclusive. After primitives that replace interpreter state by design the probe "
+            "is not judged. The ASan harness runs with a 512 MB C stack (ASan frames are larger), so C-stack exhaustion by deep "
+            "nesting is judged on the unsanitized build only.",
+            "DESIGN.md section 3 C01"),
+    "C04": ("reference-model differential: Python int/Fraction oracle, operand-preservation and canonical-form observation",
+            "Runtime monitoring by model-based differential testing: 59 exact operations over a boundary lattice (fixnum limits, "
+            "2^k+-1 to k=400, all-ones/zero words), random operands to 4000 bits, crafted quotient-estimate / split / fixnum-border "
+            "operands and ratios with parts at +-2^62, each operand built by a random computation route; every case prints result, "
+            "canonical-form checks (fixnum?, ratio parts, eqv? to the literal) and the operands after the operation. Heap checker on.",
+            "Trusted: Python int/Fraction/isqrt, the observation reader, chibi's write of exact numbers. Nothing is claimed for "
+            "operand patterns outside the recorded (op, class, tag) signatures.",
+            "DESIGN.md section 3 C04"),
+    "C05": ("evaluation-stack depth probe (loadable C library) sampled inside generated tail-context loops; out-of-stack observed at process exit, C API and thread-join!",
+            "Runtime monitoring: loop programs composed from the R7RS 3.5 tail contexts (26 contexts x 11 call variants, all ordered "
+            "pairs in quick, triples in thorough) record the VM's published stack top at iterations 10, 10^3, 10^5 (10^7 for a "
+            "sample); all samples of a loop must be equal. Non-tail controls prove the probe sees growth. Non-tail recursion returns "
+            "the right value up to 90% of the measured capacity; beyond the maximum the process ends with the out-of-stack message "
+            "(no signal), the embedding caller receives the out-of-stack object and the same context keeps working, also in a green thread.",
+            "'Any number of iterations' is restated as equal depth at 10/10^3/10^5/10^7. parameterize/dynamic-wind/guard bodies are "
+            "not tail contexts in chibi and are not claimed. Trusted: native/probe.c reads sexp_context_top.",
+            "DESIGN.md section 3 C05"),
+    "C06": ("reference-model differential: definitional CPS interpreter with the R7RS wind/handler/parameter model computes the expected event trace",
+            "Runtime monitoring by model-based differential testing: each control script (one top-level form logging before/after "
+            "thunks, handler entries, parameter values, converter calls, returned values) is run by chibi and by the reference "
+            "interpreter; any difference in trace or value is a violation. Exhaustive for script trees up to 6 steps (wind depth <= 2, "
+            "2 continuations) and small exception trees; above that seeded sampling biased so that >= 40% of random scripts re-enter "
+            "an exited extent or jump between cousin extents (measured), coroutine ping-pong, and a separately judged eval family.",
+            "Trusted: vf/props/c06_ref.py (the oracle) and the sexpr reader. Not claimed: continuations entering or leaving a "
+            "before/after thunk (unspecified by R7RS 6.10), multiple values through continuations.",
+            "DESIGN.md section 3 C06"),
+    "C07": ("metamorphic renaming test (consistent renaming of user binders must not change the result) plus hand-derived values",
+            "Runtime monitoring, metamorphic: 76 macro shapes x {syntax-rules, er, sc, rsc} x {top level, body} written in an abstract "
+            "syntax with binder identities; every admissible consistent renaming (targets: fresh names, template temporaries and free "
+            "references, literals, core keywords, standard procedures, other binders, temporaries of 22 standard-library macros) must "
+            "print the same value as the unrenamed program and the hand-derived value.",
+            "Hand-written shape library, not a program grammar; admissibility of a renaming is decided by a lexical-scope check of "
+            "the user-written text; top-level binders are renamed only to fresh or template-local names.",
+            "DESIGN.md section 3 C07"),
+    "C13": ("ThreadSanitizer on a pthread multi-context harness + cross-context isolation script on the ASan build",
+            "Runtime monitoring: native/mtctx.c starts 2-16 OS threads, each creating its own root context, loading the standard "
+            "environment and one of nine library mixes (C-backed libraries included, so dlopen + library init of the same .so run "
+            "concurrently), running a workload with collections and destroying the context, under ThreadSanitizer, repeated with "
+            "different start delays; every thread's result must equal the single-thread result and no race report may have a stack "
+            "in interpreter/library code. A 33-line script interleaves four contexts in one OS thread on the ASan build: globals, "
+            "record types, parameters, symbols, hash tables of one context are not observable in another; destroying one leaves the others intact.",
+            "ThreadSanitizer sees only the interleavings the OS produced while it watched (reports are de-duplicated by stack pair). "
+            "sexp_scheme_init() is called once on the main thread as the manual requires.",
+            "DESIGN.md section 3 C13"),
+    "C14": ("model-based differential: Python set-algebra model of import sets over generated library graphs, probed name by name through a C-API harness",
+            "Runtime monitoring by model-based differential testing: generated library graphs (<= 6 libraries, renaming and alias "
+            "exports, DAG imports with modifiers, re-exports, macros reaching private procedures/macros/state, a shared counter "
+            "library); for each valid only/except/rename/prefix/drop-prefix composition (depth <= 4) native/envprobe.c builds the "
+            "environment and probes every name in play by C-level eval with no Scheme handler; the model decides bound/unbound, whose "
+            "binding, macro reachability of private helpers, once-only load markers and shared state; re-checked through program files and -e.",
+            "Only import sets valid under R7RS are generated; mutation of imports, cyclic imports and export-all are not exercised.",
+            "DESIGN.md section 3 C14"),
+    "C17": ("reference-model differential against Python's infinite two's-complement integers, expected values derived twice",
+            "Runtime monitoring by model-based differential testing of every procedure of (srfi 151) and its (srfi 142)/(srfi 33) "
+            "aliases on word-pattern operands of 0-6 words in both signs (lengths differing by 0-3 words, shifts and field positions "
+            "across multiples of 64); the second derivation (through the bitwise.scm compositions over the seven C primitives) also "
+            "attributes each disagreement to a root-cause class.",
+            "(srfi 142) bitwise-if and (srfi 33) bitwise-merge are not judged (argument order not decidable from the tree). Known "
+            "findings are keyed by root-cause class.",
+            "DESIGN.md section 3 C17"),
+    "C19": ("differential testing against independent reference codecs (Python stdlib) in three directions + decoder totality on the sanitized build",
+            "Runtime monitoring: base64, quoted-printable, URI, JSON, CSV, UTF-8/16/32 and the numeric bytevector/uniform-vector "
+            "accessors are compared with Python base64/quopri/urllib/json/csv/struct (chibi-encode judged by the reference decoder "
+            "and the grammar, chibi round trip, chibi-decode of reference-encoded data) over class-stratified generators; mutated, "
+            "random and crafted inputs are fed to 19 decoders on the hooks build and on the ASan/red-zone build (only crashes, "
+            "sanitizer reports and watchdog expiry count there).",
+            "Sampled, not exhaustive (lengths to 4096, JSON depth <= 8); for hostile input any value or Scheme error is accepted.",
+            "DESIGN.md section 3 C19"),
+    "C20": ("differential testing against an independent position-set matcher (no automaton, no preference order)",
+            "Runtime monitoring by model-based differential testing: generated SREs (depth <= 5, 6 themes, full SRFI 115 alias set) x "
+            "120 subjects each (exhaustive to length 3, sampled to 12, all 1093 strings to length 6 for a subset): regexp-matches / "
+            "regexp-matches? / regexp-search existence, and every reported match and submatch span validated as a genuine match of "
+            "its sub-expression.",
+            "Which of several valid matches is reported is not checked; look-around, backreferences, word/grapheme and the "
+            "fold/replace utilities are outside the generated subset; shapes that compile for > 90 s are run as a few fixed cases.",
+            "DESIGN.md section 3 C20"),
     "C02": ("forced-collection injection (hook in the allocator) + differential output + heap-reference checker",
             "Runtime monitoring: every existing test program and generated allocation-heavy case files are run under forced "
             "collection schedules (per allocation call path, every-n-th, seeded random, small heaps); the oracle is crash / "
@@ -69,7 +158,7 @@ def main():
         "version": 1,
         "setup_cmd": "python3 -m vf.setup",
         "hooks": hooks,
-        "engines": [{"name": "vf", "path": "vf/", "serves_properties": sorted(CHECKS),
+        "engines": [{"name": "vf", "path": "vf/", "serves_properties": sorted(k for k in CHECKS if len(k) == 3),
                      "kind_free_text": "runtime monitoring: sanitizer builds of the working tree, guarded hooks in the "
                                        "collector/VM (forced GC, heap checker, slice injection), reference-model "
                                        "monitors in Python"}],
